@@ -325,6 +325,13 @@ def run_check(pid, tier, seed, replay=None):
             if not a_ok or forb:
                 build_ok = False
                 build_out += "\nAUDIT: " + audit_log + "\nFORBIDDEN: " + repr(forb)
+            elif ctx.thorough():
+                # independent re-check of the compiled property module (and everything it imports) by leanchecker
+                rc_lc, out_lc = run(["lake", "env", "leanchecker", "AioftpModel.Properties." + pid], cwd=LEAN, timeout=1800)
+                ctx.leanchecker = "ok" if rc_lc == 0 else "FAILED"
+                if rc_lc != 0:
+                    build_ok = False
+                    build_out += "\nLEANCHECKER: " + out_lc[-3000:]
     proof_ok = gen_ok and build_ok
     ctx.model_ok = proof_ok
     for t in thms:
@@ -415,7 +422,8 @@ def run_check(pid, tier, seed, replay=None):
     cov = {
         "obligations": n_obl,
         "discharged": discharged if obligations else 0,
-        "checker_cmd": "cd lean && lake build AioftpModel.Properties.%s  (+ `#print axioms` audit of each theorem, forbidden-token scan)" % pid,
+        "checker_cmd": "cd lean && lake build AioftpModel.Properties.%s  (+ `#print axioms` audit of each theorem, forbidden-token scan%s)"
+        % (pid, "; leanchecker re-check: " + getattr(ctx, "leanchecker", "-") if ctx.thorough() else ""),
         "trusted_base": TRUSTED_BASE + list(getattr(mod, "TRUSTED_EXTRA", [])),
         "theorems": sorted(obligations),
         "axioms": axioms,
